@@ -541,9 +541,9 @@ theorem hand_pollRun (w : World) (started : Bool) : Hand w (w.pollRun started) :
     · exact hand_trans (hand_trans (hand_resume w) (hand_writeBytes _ _)) (hand_finish _ _ _)
 
 @[simp] theorem handleConnack_awaiting (c : Ctx) (k : ConnackRx) : (c.handleConnack k).awaiting = c.awaiting := by
-  unfold Ctx.handleConnack; split <;> split <;> rfl
+  unfold Ctx.handleConnack; split <;> rfl
 @[simp] theorem handleConnack_subs (c : Ctx) (k : ConnackRx) : (c.handleConnack k).subs = c.subs := by
-  unfold Ctx.handleConnack; split <;> split <;> rfl
+  unfold Ctx.handleConnack; split <;> rfl
 
 theorem hand_firstEnd {w : World} {call : Call} {t : ConnectTx} {a : AuthTx} {r : World}
     (h : FirstEnd w call t a r) : Hand w r := by
